@@ -45,7 +45,7 @@ def read_all_events(inst, data, encoding, bc, blocked, limit=100000, style=0, pa
     fh = open(path, 'rb') if path else None          # a real file on disk instead of io.BytesIO
     try:
         with drv.Env('ipmrd', len(data), encoding, blocked, style, data[-3:]):
-            return _read_all(inst, fh or io.BytesIO(data), encoding, bc, blocked, limit, style)
+            return _read_all(inst, fh or drv.new_file(data), encoding, bc, blocked, limit, style)
     finally:
         if fh:
             fh.close()
@@ -103,7 +103,7 @@ def write_file(msgs, encoding, bc, blocked, fins=('close',)):
 
 
 def _write_file(msgs, encoding, bc, blocked, fins):
-    f = io.BytesIO()
+    f = drv.new_file()
     w = mciipm.IpmWriter(f, encoding=encoding, iso_config=bc, blocked=blocked)
     for m in msgs:
         w.write(dict(m))
